@@ -130,6 +130,8 @@ class Env(object):
         self.sol_dig = {}    # id -> expected digest (absent once the owner scribbled on it)
         self.scratch = None
         self.files = []
+        self.obj_eos = {}    # solver object id -> EOS object id (an EOS is released with its last solver)
+        self.obj_ic = {}
 
 
 def _mk_eos(spec):
@@ -146,7 +148,9 @@ def _do_new(env, op):
         if es["id"] not in env.eos:
             env.eos[es["id"]] = _mk_eos(es)
         args.append(env.eos[es["id"]])
+        env.obj_eos[op["obj"]] = es["id"]
         if "ic" in op:
+            env.obj_ic[op["obj"]] = op["ic"]["id"]
             ics = op["ic"]
             if ics["id"] not in env.ics:
                 env.ics[ics["id"]] = dec(ics["val"])
@@ -247,6 +251,13 @@ def _do_scribble(env, op):
 
 def _do_drop(env, op):
     env.objs.pop(op["obj"], None)
+    # the caller lets go of everything it only held for this solver: its EOS object and initial-conditions dict too
+    eid = env.obj_eos.pop(op["obj"], None)
+    if eid is not None and eid not in env.obj_eos.values():
+        env.eos.pop(eid, None)
+    iid = env.obj_ic.pop(op["obj"], None)
+    if iid is not None and iid not in env.obj_ic.values():
+        env.ics.pop(iid, None)
     if op.get("sols"):
         for k in [k for k in env.sols if k in op["sols"]]:
             env.sols.pop(k)
@@ -267,6 +278,12 @@ def _do_churn(env, op):
             sub["obj"] = "_tmp"
             _do_new(e2, sub)
             n_ok += 1
+            for c in op.get("cfgs", []):
+                _do_cfg(e2, dict(c, obj="_tmp"))
+            if op.get("use"):
+                # construct, use once, discard: leaves behind whatever the solver keyed on the dead objects
+                u = op["use"]
+                e2.objs["_tmp"](make_container(dec(u["pts"]), "nd"), float.fromhex(u["t"]))
             del e2, tmp
         except Exception:
             pass
@@ -424,8 +441,6 @@ def run_history(spec, want_state=False):
         if tracer is not None:
             rec["lines"] = tracer.n
         log.append(rec)
-        if sys.stdout is not devnull:
-            sys.stdout = devnull
     tail = {"fd_delta": open_fds() - fd0, "alloc_hits": SEAM.alloc_hits, "dep_total": SEAM.dep_total,
             "dep_names": dict(SEAM.dep_names)}
     if want_state:
